@@ -22,6 +22,22 @@
 //! the presented records entails the claim (each group judged by (a)+(b) under its own
 //! parameters). A record owned by another zone can never contribute.
 //!
+//! Rule ids (= oracle clause) and signatures:
+//!   secure-unjustified   (a)/(b)/(c) above; `claim | cause | parameter class | validator`
+//!   foreign-zone-secure  Secure although no presented record is owned by the response's zone
+//!   soft-limit-secure / hard-limit-not-bogus   the iteration clauses
+//!   e2e-own-proof-rejected / e2e-secure-claim-false / chain-mismatch   see `e2e.rs`
+//! A violating set is first reduced greedily (foreign records, then the wrap-around record, then
+//! the rest) to a minimal set that still gets Secure and still violates; the *cause* is then read
+//! off that minimal set by priority-ordered structural predicates (`cause_of`): does the verdict
+//! change when the chain's wrap-around record is presented as two plain spans (differential), do
+//! records of two parameter sets carry the proof, is the apex denied without a matching record, is
+//! a wildcard answer accompanied by a record matching the query name, is the matching / closest
+//! encloser record the parent side of a delegation, is only the query name covered by an Opt-Out
+//! record for QTYPE DS, is the next closer name covered by an Opt-Out record. If none applies the
+//! detailed signature (`other:<clause>:<what is false / which proof part is missing>`) is kept.
+//! The predicates only ever look at the presented records, never at hickory's internals.
+//!
 //! Don't-cares (never reported):
 //!   * verdicts other than Secure, except the hard-limit clause;
 //!   * claims that are "false" only in a harmless way: NODATA where NXDOMAIN is the truth, an
@@ -593,7 +609,10 @@ pub fn cause_of(env: &mut Env, c: &H2Case) -> Option<&'static str> {
     if nodata && p.q_matched && p.q_deleg && c.t != ty::DS {
         return Some("nodata-at-delegation");
     }
-    if c.t == ty::DS && (nodata || expansion) && !p.q_matched && p.q_cover == Some(true) && !(p.ce_matched && p.nc_cover.is_some()) {
+    // (for an expansion the next closer name comes from the RRSIG Labels field; if that name is
+    // covered, an Opt-Out flag on the cover is cause 6, not this one)
+    let ce_proof_presented = if expansion { p.nc_cover.is_some() } else { p.ce_matched && p.nc_cover.is_some() };
+    if c.t == ty::DS && (nodata || expansion) && !p.q_matched && p.q_cover == Some(true) && !ce_proof_presented {
         return Some("ds-optout-cover-only");
     }
     if !expansion && p.ce_matched && p.ce_deleg {
@@ -1392,7 +1411,7 @@ fn main() {
     let max_double = if thorough { 2_000 } else { 250 };
     let apex = refzone::default_apex();
     let qnames = refzone::query_names(&apex, 3, refzone::FRESH_LABEL);
-    let n_zones = ctx.budget(240, 5_000);
+    let n_zones = ctx.budget(240, 3_000);
     let mut rng = ctx.rng("zones");
     let mut r = Runner::new(&mut rep);
     let e2e_rt = e2e::runtime();
